@@ -90,7 +90,8 @@ PROPS['C11'] = {
                   ('support.FBP$1', {'match': [r'^ownership', r'^post\.done', r'^nilchan', r'^sendclosed', r'^return', r'^inv\..*L1']}),
                   ('support.FBP$2', {}),
                   ('support.TBE$1', {}),
-                  ('support.TBE$2', {'match': [r'^ownership', r'^post\.done', r'^nilchan', r'^inv']})],
+                  ('support.TBE$2', {'match': [r'^ownership', r'^post\.done', r'^nilchan', r'^inv']}),
+                  ('cmd.compareTreesCmd.RunE', {'match': [r'^nilchan']})],
     'trusted_base': TB_COMMON + ['A-OWN: ownership discipline => race freedom and schedule independence (Go memory model)'],
     'assumptions': A_COMMON,
     'explanation': 'Deductive proof of an ownership + completion protocol on the worker closures; sequential VCs cannot enumerate interleavings, so the result is a sufficient-condition argument (DESIGN.md section 4, C11).',
